@@ -559,7 +559,7 @@ Dim(k) ==
             ELSE IF k <= Len(DefectList) + 1 THEN (IF NumSet(k - 1) >= Bound THEN 1 ELSE 2)
             ELSE IF k = Len(DefectList) + 2 THEN 3          \* witness
             ELSE 0
-      [] Family = "scripts"  -> V(IF Bound = 1 THEN <<1, 3, 1, 3, 4, 6>> ELSE <<3, 3, 3, 3, 4, 6>>, k)
+      [] Family = "scripts"  -> V(IF Bound = 1 THEN <<1, 3, 1, 3, 4, 6, 2>> ELSE <<3, 3, 3, 3, 4, 6, 2>>, k)
       [] Family = "leak_scripts" -> V(<<1, 3, 1, 3, 4, 2>>, k)
       [] Family \in {"sigmut", "leak_sigmut"} -> V(<<2, 72>>, k)
       [] Family = "base"     -> V(IF Bound = 0 THEN <<2, 2, 3, 3, 3, 2, 2, 2>> ELSE <<2, 4, 6, 6, 5, 3, 2, 2>>, k)
@@ -607,7 +607,7 @@ BundleOf ==
             InjectAll(Bundle0(CarrierOf(idx[1])),
                       SetToSortSeq(IF 10 \in DefectSet THEN DefectSet \ {11, 12} ELSE DefectSet, <), 1, idx[Len(idx)])
       [] Family \in {"scripts", "leak_scripts"} ->
-            LET b == Bundle0("hdr")
+            LET b == Bundle0(IF Len(idx) >= 7 THEN CarrierOf(idx[7]) ELSE "hdr")
                 pend == <<0, 1, 3>>
                 outc == <<"ok", "sigerr", "foreign">>
                 kinds == <<"InvalidClientTokenId", "ExpiredToken", "SignatureDoesNotMatch", "InternalServiceError">>
